@@ -199,6 +199,7 @@ int main(int argc, char **argv) {
     while (fgets(line, sizeof line, ops)) {
         char *id = NULL, *fn = NULL, *hf = NULL, *as = NULL, *dm = NULL, *save = NULL;
         int noref = 0;              /* noref=1: do not ask glibc (fields of 2^31 characters take it seconds) */
+        int dirt = 0;               /* dirt=1: dest holds an old short string followed by garbage instead of uniform 0xAA */
         size_t L = strlen(line);
         while (L && (line[L - 1] == '\n' || line[L - 1] == '\r')) line[--L] = 0;
         for (char *tok = strtok_r(line, " ", &save); tok; tok = strtok_r(NULL, " ", &save)) {
@@ -208,6 +209,7 @@ int main(int argc, char **argv) {
             else if (!strncmp(tok, "args=", 5)) as = tok + 5;
             else if (!strncmp(tok, "dmax=", 5)) dm = tok + 5;
             else if (!strcmp(tok, "noref=1")) noref = 1;
+            else if (!strcmp(tok, "dirt=1")) dirt = 1;
         }
         if (!id || !fn || !hf) continue;
         Arg a[MAXARGS];
@@ -235,6 +237,7 @@ int main(int argc, char **argv) {
         unsigned char *lo = arena;                     /* everything in front of dest is canary */
         memset(arena, 0xC7, ARENA_PAGES * PAGE);
         memset(dest, 0xAA, dmax);
+        if (dirt) { for (size_t i = 0; i < dmax; i++) dest[i] = (char)(i == 1 ? 0 : 0x41 + (i % 53)); }
         FILE *stream = NULL;
         if (isfile || isout) { if (ftruncate(capfd, 0)) {} lseek(capfd, 0, SEEK_SET); }
         if (isfile) stream = fdopen(dup(capfd), "w");
